@@ -6,11 +6,14 @@ import (
 	"bytes"
 	"errors"
 	"fmt"
+	"hash/crc32"
 	"os"
 	"path"
+	"path/filepath"
 	"sort"
 	"strconv"
 	"strings"
+	"sync"
 	"time"
 
 	"github.com/spf13/afero"
@@ -193,6 +196,8 @@ func c14RunImpl(c corr.Case) []string {
 	var fs afero.Fs
 	var hs []afero.File
 	isZip := false
+	var curKind string
+	var curEnts []c14Ent
 	out := make([]string, 0, len(c.Lines))
 	for _, line := range c.Lines {
 		t := strings.Fields(line)
@@ -210,6 +215,7 @@ func c14RunImpl(c corr.Case) []string {
 				var err error
 				hs = nil
 				isZip = strings.HasPrefix(t[1], "zip")
+				curKind, curEnts = t[1], c14ParseEntries(t[2])
 				fs, err = c14Build(t[1], c14ParseEntries(t[2]))
 				if err != nil {
 					fs = nil
@@ -221,6 +227,8 @@ func c14RunImpl(c corr.Case) []string {
 				return "no-archive"
 			}
 			switch t[0] {
+			case "concwalk":
+				return c14ConcWalk(curKind, curEnts)
 			case "stat":
 				fi, err := fs.Stat(arg(1))
 				if err != nil {
@@ -792,11 +800,91 @@ func c14Walk(c corr.Case, impl []string, stopAtFailure bool) (*c14View, string, 
 		if v == nil {
 			continue
 		}
+		if t[0] == "concwalk" {
+			if strings.HasPrefix(impl[i], "fail") && stopAtFailure {
+				return v, impl[i], i
+			}
+			continue
+		}
 		if what := v.Check(t, impl[i]); what != "" && stopAtFailure {
 			return v, what, i
 		}
 	}
 	return v, "", -1
+}
+
+// c14ConcWalk: simultaneous handles in the literal sense. Eight goroutines, each with handles of its own, walk a
+// freshly opened archive at the same time (stat, list and read everything); each must see what one goroutine
+// alone sees. (An archive filesystem is read-only: nothing in it may be written on first use.)
+func c14ConcWalk(kind string, ents []c14Ent) string {
+	describe := func(fs afero.Fs) string {
+		var sb strings.Builder
+		var rec func(dir string, depth int)
+		rec = func(dir string, depth int) {
+			f, err := fs.Open(dir)
+			if err != nil {
+				fmt.Fprintf(&sb, "%s open:%s;", dir, c14Err(err))
+				return
+			}
+			names, _ := f.Readdirnames(-1)
+			f.Close()
+			sort.Strings(names)
+			fmt.Fprintf(&sb, "%s [%s];", dir, strings.Join(names, ","))
+			for _, n := range names {
+				p := filepath.Join(dir, n)
+				fi, err := fs.Stat(p)
+				if err != nil {
+					fmt.Fprintf(&sb, "%s stat:%s;", p, c14Err(err))
+					continue
+				}
+				if fi.IsDir() {
+					if depth < 8 {
+						rec(p, depth+1)
+					}
+					continue
+				}
+				b, err := afero.ReadFile(fs, p)
+				fmt.Fprintf(&sb, "%s %d %x err=%v;", p, fi.Size(), crc32.ChecksumIEEE(b), err != nil)
+			}
+		}
+		rec("/", 0)
+		return sb.String()
+	}
+	ref, err := c14Build(kind, ents)
+	if err != nil {
+		return "setup-failed:" + err.Error()
+	}
+	want := describe(ref)
+	for round := 0; round < 400; round++ {
+		shared, err := c14Build(kind, ents)
+		if err != nil {
+			return "setup-failed:" + err.Error()
+		}
+		got := make([]string, 16)
+		var wg sync.WaitGroup
+		start := make(chan struct{})
+		for g := range got {
+			wg.Add(1)
+			go func(g int) {
+				defer wg.Done()
+				defer func() {
+					if r := recover(); r != nil {
+						got[g] = fmt.Sprint("panic: ", r)
+					}
+				}()
+				<-start
+				got[g] = describe(shared)
+			}(g)
+		}
+		close(start)
+		wg.Wait()
+		for g := range got {
+			if got[g] != want {
+				return fmt.Sprintf("fail: goroutine %d of 16 walking the archive at the same time sees %q, one goroutine alone sees %q", g, got[g], want)
+			}
+		}
+	}
+	return "ok"
 }
 
 func c14Oracle(c corr.Case, impl []string) (string, int) {
@@ -907,6 +995,13 @@ func c14Corpus() []corr.Case {
 		dots := []c14Ent{file("notes..old.txt", "n"), dir("rel/v1..v2/"), file("rel/v1..v2/changes.diff", "diff"), file("..hidden", "h"), file("a/../b.txt", "b")}
 		cs = append(cs, c14Case(k, dots, "stat "+hp("notes..old.txt"), "open "+hp("rel/v1..v2/changes.diff"), "h.read 0 9", "stat "+hp("..hidden"), "stat "+hp("b.txt"),
 			"open "+hp("/"), "h.readdirnames 1 -1", "open "+hp("rel"), "h.readdirnames 2 -1", "open "+hp("rel/v1..v2"), "h.readdirnames 3 -1"))
+	}
+	// simultaneous handles in different goroutines on a fresh archive
+	for _, k := range c14Kinds {
+		wide := []c14Ent{file("a.txt", "hello"), dir("d/"), file("sub/x", "xyz"), file("sub/deep/er/y", "yy"), file("d/one", "1"), file("d/two", "22"), file("e/f/g", "ggg"), dir("empty/")}
+		cc := c14Case(k, wide, "concwalk", "stat "+hp("sub/x"))
+		cc.Lines[0] = "o" + cc.Lines[0]
+		cs = append(cs, cc)
 	}
 	// S7: a second open of a tar entry reads from the first handle's position
 	cs = append(cs, c14Case("tar", base, "open "+hp("a.txt"), "h.read 0 5", "h.read 0 1", "open "+hp("a.txt"), "h.read 1 5",
